@@ -622,9 +622,13 @@ def check_hist(case, acc):
     # marginalisation: every index subset; expectation of every term supported on the remaining qubits is unchanged
     for idx in subsets(L):
         hr = Histogram(dict(d))
+        observe(hr)
         ok, _ = call("Histogram.remove_qubit_indices", hr.remove_qubit_indices, *idx)
         if not ok:
             continue
+        stale = derived_views_stale(hr)
+        if stale:
+            bad("Histogram.remove_qubit_indices", "derived-views-stale-after-in-place-operation", dict(stale, indices=idx), extra=f"/rm{len(idx)}")
         ref = RH.remove(d, idx)
         if not RH.same(hr.counts, ref) or hr.n_shots != tot:
             bad("Histogram.remove_qubit_indices", "counts-differ", {"indices": idx, "got": hr.counts, "ref": ref,
@@ -671,9 +675,13 @@ def check_hist(case, acc):
     # post-selection (in place): keeps exactly the matching mass, removes the selected indices
     for exp in expected_dicts(L):
         hp = Histogram(dict(d))
+        observe(hp)                  # history: every derived view has been read before the in-place operation
         ok, _ = call("Histogram.post_select", hp.post_select, dict(exp))
         if not ok:
             continue
+        stale = derived_views_stale(hp)
+        if stale:
+            bad("Histogram.post_select", "derived-views-stale-after-in-place-operation", dict(stale, expected_outcomes=exp), extra=f"/sel{len(exp)}")
         mass, ref = RH.select(d, exp)
         if not RH.same(hp.counts, ref) or hp.n_shots != mass:
             bad("Histogram.post_select", "kept-mass-or-counts-differ", {"expected_outcomes": exp, "got": hp.counts, "ref": ref, "mass": mass,
@@ -701,6 +709,30 @@ def check_hist(case, acc):
             if hfil.counts is h.counts:
                 bad("filter_hist", "result-aliases-operand", {})
     acc.states += 1
+
+
+def observe(h):
+    """Read every derived view of a histogram (so that anything cached is cached now)."""
+    try:
+        return (h.n_shots, h.n_qubits, dict(h.frequencies))
+    except Exception:
+        return None
+
+
+def derived_views_stale(h):
+    """None if n_shots / n_qubits / frequencies agree with what a fresh Histogram of the same counts reports, else a description."""
+    from tangelo.toolboxes.post_processing import Histogram
+    counts = {k: v for k, v in dict(h.counts).items()}
+    tot = sum(counts.values())
+    if tot == 0 or not counts:
+        return None
+    f = Histogram(dict(counts))
+    got, want = observe(h), observe(f)
+    if got is None or want is None:
+        return None if got == want else {"got": repr(got), "fresh": repr(want)}
+    if got[0] != want[0] or got[1] != want[1] or not RH.same(got[2], want[2], TOLN):
+        return {"n_shots": [got[0], want[0]], "n_qubits": [got[1], want[1]], "frequencies": [got[2], want[2]]}
+    return None
 
 
 @guarded
@@ -1029,6 +1061,8 @@ def check_nary(case, acc):
             verify("Histogram.__add__", r, hs)
         hs = fresh()
         target = hs[0]
+        for h_ in hs:
+            observe(h_)               # history: derived views read before the in-place sum
 
         def iadd():
             t = hs[0]
@@ -1039,6 +1073,9 @@ def check_nary(case, acc):
         if ok:
             if r is not target:
                 bad("Histogram.__iadd__", "not-in-place", {})
+            stale = derived_views_stale(r)
+            if stale:
+                bad("Histogram.__iadd__", "derived-views-stale-after-in-place-operation", stale)
             verify("Histogram.__iadd__", r, hs, skip_operand=0)
         if any(set(RH.clean(a)) & set(RH.clean(b)) for a, b in itertools.combinations(ds, 2)):
             acc.nt(str(("nary", [sorted(d.items()) for d in ds])))
